@@ -746,9 +746,7 @@ impl<'a> TokenProducer<'a> {
           }
           Result::Ok(i64) => {
             let maxi32_plus1 = (i32::MAX as i64) + 1;
-            if i64 > maxi32_plus1 || (i64 == maxi32_plus1 && self.pending.is_none()) {
-              error_set.report_invalid_syntax_error(loc, "Not a 32-bit integer.".to_string());
-            } else if i64 == maxi32_plus1
+            if i64 == maxi32_plus1
               && let Option::Some(Token(prev_loc, TokenContent::Operator(TokenOp::Minus))) =
                 &self.pending
             {
@@ -758,6 +756,9 @@ impl<'a> TokenProducer<'a> {
                 TokenContent::IntLiteral(heap.alloc_string(format!("-{s}"))),
               ));
               return None;
+            } else if i64 >= maxi32_plus1 {
+              // 2147483648 is only a 32-bit integer as part of -2147483648.
+              error_set.report_invalid_syntax_error(loc, "Not a 32-bit integer.".to_string());
             }
           }
         };
